@@ -48,7 +48,7 @@ CLASS_FLOORS = {"no_solution_game": 0.1, "dead>=2": 0.1}
 @st.composite
 def cases(draw, max_inner=10):
     g = draw(games.stopping_games(min_inner=1, max_inner=max_inner, max_sinks=3, zero_edges=True))
-    route = draw(st.sampled_from(("prune", "prune", "no_prune", "batch", "again_pp", "again_pn", "again_np")))
+    route = draw(st.sampled_from(("prune", "prune", "no_prune", "batch", "batch_twice", "again_pp", "again_pn", "again_np")))
     return dict(game=g, route=route)
 
 
@@ -69,9 +69,16 @@ def planted():
         sink_game(PR, [(0.5, 3), (0.5, 1)], [PR, PR, PR],
                   [[(0.25, 3), (0.25, 4), (0.25, 5), (0.25, 2)], [(1, 4)], [(0.5, 5), (0.5, 2)]]),  # dead state, rewarded loop
         sink_game(P2, [("a", 3), ("b", 4)], [PR, PR], [[(0.5, 1), (0.5, 2)], [(0.5, 1), (0.5, 0)]]),
+        # the initial state is itself a final state (value 1 by definition): alone, next to another final state,
+        # owned by a player, listed last or twice
+        dict(rewards=[0, 0], players=[PR, PR], transition_list=[[(1, 0)], [(1, 1)]], final_states=[0]),
+        dict(rewards=[0, 0, 0, 2], players=[P1, PR, PR, PR],
+             transition_list=[[("stay", 0)], [(1, 1)], [(1, 2)], [(0.5, 1), (0.5, 2)]], final_states=[1, 0]),
+        dict(rewards=[0, 0, 0], players=[P2, PR, PR], transition_list=[[("stay", 0)], [(1, 1)], [(0.5, 1), (0.5, 0)]],
+             final_states=[0, 0]),
     ]
     for g in gs:
-        for route in ("prune", "no_prune", "batch", "again_pn", "again_pp"):
+        for route in ("prune", "no_prune", "batch", "batch_twice", "again_pn", "again_pp"):
             yield dict(game=g, route=route)
 
 
@@ -317,6 +324,9 @@ def check_case(case):
             with sweep_budget(r.tad, facts.budget, facts.n, extra_modules=(r.conditionalrewards,),
                               on_reward_phase=helper._reward_phase_budget) as shim:
                 res = r.conditionalrewards.run_games(gd)
+                if route == "batch_twice":
+                    # the caller hands the very same dictionary to the driver again
+                    res = r.conditionalrewards.run_games(gd)
         except BudgetExceeded as e:
             judge("budget", e, None, True, "run_games", None)
             v.nontrivial = nt
